@@ -19,10 +19,10 @@ ASSUMPTIONS = [
 _URL = 'http://h.example/p?q=1'
 
 
-def _header(eol, spaces, lower, fold, dup, extra, framing_field):
+def _header(eol, spaces, lower, fold, dup, extra, framing_field, status=b'200 OK'):
     sp = b' ' * spaces
     name = (lambda s: s.lower()) if lower else (lambda s: s)
-    lines = [b'HTTP/1.1 200 OK']
+    lines = [b'HTTP/1.1 ' + status]
     lines.append(name(b'Content-Type') + b':' + sp + b'text/plain')
     if fold:
         lines.append(b'X-Folded:' + sp + b'first')
@@ -40,23 +40,27 @@ def _header(eol, spaces, lower, fold, dup, extra, framing_field):
     return eol.join(lines) + eol + eol
 
 
-def _response_block(body, framing, cuts, lf_only, spaces, lower, fold, dup, extra, overrun):
+_STATUSES = [b'200 OK', b'205 Reset Content', b'404 Not Found', b'500 Oops', b'203 Non-Authoritative', b'301 Moved', b'206 Partial', b'299 Odd']
+
+
+def _response_block(body, framing, cuts, lf_only, spaces, lower, fold, dup, extra, overrun, status_i=0):
     """framing: 0 Content-Length, 1 chunked (+ext +trailer), 2 until close."""
     eol = b'\n' if lf_only else b'\r\n'
     body = fixlen(body, 3)
     spaces = pick([0, 1, 2], spaces)
     overrun = realize_int(overrun, 0, 2)
+    status = pick(_STATUSES, status_i)            # status codes that DO carry a body (the body-less ones are C08's strategy_choice)
     if framing == 0:
-        msg = _header(eol, spaces, lower, fold, dup, extra, b'Content-Length: ' + str(len(body)).encode()) + body
+        msg = _header(eol, spaces, lower, fold, dup, extra, b'Content-Length: ' + str(len(body)).encode(), status) + body
         wire = msg + b'Z' * overrun
     elif framing == 1:
-        msg = _header(eol, spaces, lower, fold, dup, extra, b'Transfer-Encoding: chunked')
+        msg = _header(eol, spaces, lower, fold, dup, extra, b'Transfer-Encoding: chunked', status)
         if len(body):
             msg = msg + ('%X' % len(body)).encode() + b';ext=1' + eol + body + eol
         msg = msg + b'0' + eol + b'X-Trailer: t' + eol + eol
         wire = msg
     else:
-        msg = _header(eol, spaces, lower, fold, dup, extra, None) + body
+        msg = _header(eol, spaces, lower, fold, dup, extra, None, status) + body
         wire = msg
     fs = fakefs.FS()
     rec = warcenv.new_recorder(fs)
@@ -157,21 +161,22 @@ HARNESSES = [
       doc='an interim 1xx response before the final one on a persistent connection: each URL\'s response record holds the server\'s final '
           'answer to THAT request (expected to fail: D15)'),
     H('response_block', '_response_block',
-      'body: bytes, framing: int, cuts: List[int], lf_only: bool, spaces: int, lower: bool, fold: bool, dup: bool, extra: bool, overrun: int',
-      pre={'quick': ['len(body) <= 2 and 0 <= framing <= 2 and len(cuts) <= 2 and 0 <= spaces <= 2 and 0 <= overrun <= 2'],
-           'thorough': ['len(body) <= 3 and 0 <= framing <= 2 and len(cuts) <= 3 and 0 <= spaces <= 2 and 0 <= overrun <= 2']},
+      'body: bytes, framing: int, cuts: List[int], lf_only: bool, spaces: int, lower: bool, fold: bool, dup: bool, extra: bool, overrun: int, status_i: int',
+      pre={'quick': ['len(body) <= 2 and 0 <= framing <= 2 and len(cuts) <= 2 and 0 <= spaces <= 2 and 0 <= overrun <= 2 and 0 <= status_i < %d' % len(_STATUSES)],
+           'thorough': ['len(body) <= 3 and 0 <= framing <= 2 and len(cuts) <= 3 and 0 <= spaces <= 2 and 0 <= overrun <= 2 and 0 <= status_i < %d' % len(_STATUSES)]},
       parts={'quick': [
-          {'tag': 'f0_plain', 'fix': _fx(framing=0, lf_only=False, spaces=1, lower=False, fold=False, dup=False, extra=False)},
-          {'tag': 'f0_odd', 'fix': _fx(framing=0, lf_only=True, spaces=0, lower=True, fold=True, dup=True, extra=True, overrun=0), 'pre': ['len(cuts) <= 1']},
-          {'tag': 'f0_odd2', 'fix': _fx(framing=0, lf_only=False, spaces=2, lower=False, fold=True, dup=False, extra=True, overrun=1), 'pre': ['len(cuts) <= 1']},
-          {'tag': 'f1_plain', 'fix': _fx(framing=1, lf_only=False, spaces=1, lower=False, fold=False, dup=False, extra=False, overrun=0)},
-          {'tag': 'f1_odd', 'fix': _fx(framing=1, lf_only=True, spaces=0, lower=True, fold=True, dup=True, extra=True, overrun=0), 'pre': ['len(cuts) <= 1']},
-          {'tag': 'f2_plain', 'fix': _fx(framing=2, lf_only=False, spaces=1, lower=False, fold=False, dup=False, extra=False, overrun=0)},
-          {'tag': 'f2_odd', 'fix': _fx(framing=2, lf_only=True, spaces=2, lower=True, fold=True, dup=True, extra=True, overrun=0), 'pre': ['len(cuts) <= 1']}],
-             'thorough': [{'tag': 'f%d_l%d_o%d_d%d' % (f, l, o, d), 'fix': _fx(framing=f, lf_only=bool(l), fold=bool(o), dup=bool(d))}
+          {'tag': 'f0_plain', 'fix': _fx(framing=0, lf_only=False, spaces=1, lower=False, fold=False, dup=False, extra=False, status_i=0)},
+          {'tag': 'statuses', 'fix': _fx(lf_only=False, spaces=1, lower=False, fold=False, dup=False, extra=False, overrun=0), 'pre': ['len(cuts) <= 1 and len(body) <= 1']},
+          {'tag': 'f0_odd', 'fix': _fx(framing=0, lf_only=True, spaces=0, lower=True, fold=True, dup=True, extra=True, overrun=0, status_i=0), 'pre': ['len(cuts) <= 1']},
+          {'tag': 'f0_odd2', 'fix': _fx(framing=0, lf_only=False, spaces=2, lower=False, fold=True, dup=False, extra=True, overrun=1, status_i=0), 'pre': ['len(cuts) <= 1']},
+          {'tag': 'f1_plain', 'fix': _fx(framing=1, lf_only=False, spaces=1, lower=False, fold=False, dup=False, extra=False, overrun=0, status_i=0)},
+          {'tag': 'f1_odd', 'fix': _fx(framing=1, lf_only=True, spaces=0, lower=True, fold=True, dup=True, extra=True, overrun=0, status_i=0), 'pre': ['len(cuts) <= 1']},
+          {'tag': 'f2_plain', 'fix': _fx(framing=2, lf_only=False, spaces=1, lower=False, fold=False, dup=False, extra=False, overrun=0, status_i=0)},
+          {'tag': 'f2_odd', 'fix': _fx(framing=2, lf_only=True, spaces=2, lower=True, fold=True, dup=True, extra=True, overrun=0, status_i=0), 'pre': ['len(cuts) <= 1']}],
+             'thorough': [{'tag': 'f%d_l%d_o%d_d%d' % (f, l, o, d), 'fix': _fx(framing=f, lf_only=bool(l), fold=bool(o), dup=bool(d), status_i=(f + l + o + d) % 8)}
                           for f in (0, 1, 2) for l in (0, 1) for o in (0, 1) for d in (0, 1)]},
       timeout={'quick': 280, 'thorough': 2400},
-      samples=[(b'ab', 0, [1], False, 1, False, False, False, False, 0), (b'ab', 1, [], True, 0, True, True, True, True, 0), (b'a', 0, [], False, 2, False, True, False, False, 2)],
+      samples=[(b'ab', 0, [1], False, 1, False, False, False, False, 0, 0), (b'ab', 1, [], True, 0, True, True, True, True, 0, 0), (b'a', 0, [], False, 2, False, True, False, False, 2, 0), (b'a', 2, [], False, 1, False, False, False, False, 0, 1)],
       need=['f0', 'f1', 'f2', 'overrun'],
       funcs=['wpull/warc/recorder.py:HTTPWARCRecorderSession.response_data', 'wpull/warc/recorder.py:HTTPWARCRecorderSession.end_response',
              'wpull/warc/recorder.py:HTTPWARCRecorderSession.request_data', 'wpull/warc/recorder.py:WARCRecorder._http_session_callback',
